@@ -61,7 +61,7 @@ pub fn window_ops(data: &[u8]) -> CaseResult {
 			0..=8 => c01::Op::Push,
 			9 | 10 => c01::Op::Observe,
 			11 | 12 => c01::Op::Splits(c.u16()),
-			13 => c01::Op::CloneSwap,
+			13 => if c.left() % 2 == 0 { c01::Op::CloneSwap } else { c01::Op::CloneFrom(c.u8()) },
 			14 => c01::Op::Rebuild,
 			_ => c01::Op::Serde,
 		});
